@@ -121,10 +121,23 @@ def latex_name(display_latex: str) -> str:
 
 
 def float_fraction(f) -> Fraction:
-    """A Float leaf denotes the decimal it carries at its declared precision (15 significant digits by default)."""
-    if f._prec == 53:  # pylint: disable=protected-access
-        return Fraction(format(float(f), ".15g"))
-    return Fraction(str(f))
+    """A Float leaf denotes the decimal it carries at its declared precision: the exact binary value rounded
+    (half-even, exact rational arithmetic) to `dps` significant decimal digits (15 by default)."""
+    r = sympy.Rational(f)
+    fr = Fraction(int(r.p), int(r.q))
+    if fr == 0:
+        return fr
+    dps = max(1, int(getattr(f, "_prec", 53) * 0.30103) if getattr(f, "_prec", 53) != 53 else 15)
+    a = abs(fr)
+    e10 = len(str(a.numerator)) - len(str(a.denominator))      # estimate of floor(log10 a), off by at most one
+    while Fraction(10) ** e10 > a:
+        e10 -= 1
+    while Fraction(10) ** (e10 + 1) <= a:
+        e10 += 1
+    scale = Fraction(10) ** (e10 - dps + 1)
+    m = round(a / scale)            # Python rounds Fractions half-even
+    out = m * scale
+    return out if fr > 0 else -out
 
 
 def float_dec(f):
@@ -262,7 +275,7 @@ class Reader:
             if len(e.args) == 2:
                 if e.args[1] == S.Exp1:
                     return ("fn", "ln", [self.read(e.args[0])])
-                return ("log2", self.read(e.args[0]), self.read(e.args[1]))
+                return ("div", ("fn", "ln", [self.read(e.args[0])]), ("fn", "ln", [self.read(e.args[1])]))
             return ("fn", "ln", [self.read(e.args[0])])
         if isinstance(e, sympy.Abs):
             return ("fn", "Rabs", [self.read(e.args[0])])
@@ -355,6 +368,8 @@ class CoqEmit:
 
     def t(self, r) -> str:  # pylint: disable=too-many-return-statements,too-many-branches
         k = r[0]
+        if k == "raw":
+            return r[1]
         if k == "num":
             fr = r[1]
             return _z(fr.numerator) if fr.denominator == 1 else f"({_z(fr.numerator)} / {fr.denominator})"
@@ -774,7 +789,7 @@ def aexpr_rtree(a):  # pylint: disable=too-many-return-statements
         if len(args) == 1 and f in KNOWN_FN:
             return ("fn", KNOWN_FN[f], args) if KNOWN_FN[f] != "sqrt" else ("sqrt", args[0])
         if len(args) == 2 and f == "log":
-            return ("log2", args[0], args[1])
+            return ("div", ("fn", "ln", [args[0]]), ("fn", "ln", [args[1]]))
         return ("phi", f, args)
     raise ValueError(k)
 
@@ -811,6 +826,130 @@ def aexpr_show(a) -> str:
         sym = {"OEq": "=", "OAdd": "+", "OSub": "-", "OMul": "*", "ODiv": "/", "OPow": "^"}[a[1]]
         return f"({aexpr_show(a[2])} {sym} {aexpr_show(a[3])})"
     return f"{a[1]}({', '.join(aexpr_show(x) for x in a[2])})"
+
+
+# =================================================================================================
+# scripted congruence: which applications of the two readings are meant to be equal
+# =================================================================================================
+
+def _freeze(r):
+    if isinstance(r, list):
+        return tuple(_freeze(x) for x in r)
+    if isinstance(r, tuple):
+        return tuple(_freeze(x) for x in r)
+    return r
+
+
+def _fingerprint(r, val):
+    try:
+        v = evaluate(r, val)
+    except (ZeroDivisionError, OverflowError, ValueError, KeyError, TypeError):
+        return None
+    if v != v or abs(v) > 1e200:
+        return None
+    return v
+
+
+def _node_class(r):
+    k = r[0]
+    if k == "fn":
+        return "fn:" + r[1]
+    if k == "sqrt":
+        return "sqrt"
+    if k == "rpow":
+        return "rpow"
+    if k == "phi":
+        return f"phi:{r[1]}:{len(r[2])}"
+    return None
+
+
+def cong_script(em: CoqEmit, parsed, orig, all_names):
+    """Tactic steps that rewrite applications (and denominators) of the parsed reading into the equal-valued
+    applications of the original reading, innermost first.  The pairing is guessed numerically; every step is then
+    PROVED in Coq (assert ... by ...), so a wrong guess can only make a step fail, never make a lemma pass."""
+    val = {}
+    for i, n in enumerate(all_names):
+        h = sum((j + 3) * ord(ch) for j, ch in enumerate(n)) % 89
+        val[n] = 0.731 + 0.137 * i + h / 97.0
+    classes: dict[str, list] = {}
+    for t in subtrees(orig):
+        cl = _node_class(t)
+        if cl:
+            classes.setdefault(cl, []).append((t, _fingerprint(t, val)))
+        den = t[1] if t[0] == "inv" else (t[2] if t[0] == "div" else None)
+        if den is not None and den[0] in ("add", "sub", "mul", "neg"):
+            classes.setdefault("den", []).append((den, _fingerprint(den, val)))
+    steps = []
+    memo = {}
+
+    def lookup(cl, fp, text, recip=False):
+        best = None
+        for m, mfp in classes.get(cl, []):
+            if fp is None or mfp is None:
+                continue
+            target = 1 / mfp if recip and abs(mfp) > 1e-200 else mfp
+            if recip and abs(mfp) <= 1e-200:
+                continue
+            if close(fp, target, 1e-10):
+                mt = em.t(m)
+                if mt == text:
+                    return m, mt
+                if best is None:
+                    best = (m, mt)
+        return best
+
+    def rebuild(n):
+        k = n[0]
+        if k in ("add", "mul"):
+            return (k, [rw(a) for a in n[1]])
+        if k in ("neg", "inv", "sqrt"):
+            return (k, rw(n[1]))
+        if k in ("sub", "rpow"):
+            return (k, rw(n[1]), rw(n[2]))
+        if k == "div":
+            return (k, rw(n[1]), rw_den(n[2]))
+        if k == "powi":
+            return (k, rw(n[1]), n[2])
+        if k in ("fn", "phi"):
+            return (k, n[1], [rw(a) for a in n[2]])
+        return n
+
+    def rw_den(n):
+        n2 = rw(n)
+        if n[0] not in ("add", "sub", "mul", "neg"):
+            return n2
+        text = em.t(n2)
+        hit = lookup("den", _fingerprint(n, val), text)
+        if hit and hit[1] != text:
+            steps.append(f"try (rd_replace {text} {hit[1]} ltac:(rd_arg))")
+            return ("raw", hit[1])
+        return n2
+
+    def rw(n):
+        key = _freeze(n)
+        if key in memo:
+            return memo[key]
+        n2 = rebuild(n)
+        out = n2
+        cl = _node_class(n)
+        if cl:
+            text = em.t(n2)
+            fp = _fingerprint(n, val)
+            hit = lookup(cl, fp, text)
+            if hit:
+                if hit[1] != text:
+                    steps.append(f"try (rd_replace {text} {hit[1]} ltac:(rd_eq))")
+                out = ("raw", hit[1])
+            elif cl in ("fn:exp", "rpow"):
+                hit = lookup(cl, fp, text, recip=True)
+                if hit:
+                    steps.append(f"try (rd_replace {text} (/ {hit[1]}) ltac:(rd_eq))")
+                    out = ("raw", f"(/ {hit[1]})")
+        memo[key] = out
+        return out
+
+    rw(parsed)
+    return steps
 
 
 # =================================================================================================
@@ -858,7 +997,8 @@ def build_lemma(kind: str, idx: int, parse_call: str, s: str, parsed, orig_sides
         lhs = f"aeval {rho} phi {aexpr_lit(p)}"
         rhs = em.t(o)
         goals.append(f"{lhs} = {rhs}")
-        changes.append(f"change ({em.t(prtree)} = {rhs})")
+        steps = cong_script(em, prtree, o, list(em.vars))
+        changes.append("; ".join([f"change ({em.t(prtree)} = {rhs})"] + steps))
     binder = f"forall (phi : string -> list R -> R) ({' '.join(em.vars.values())} : R), " if em.vars else \
         "forall (phi : string -> list R -> R), "
     sem = binder + "".join(f"{h} -> " for h in hyp_txt) + " /\\ ".join(f"({g})" for g in goals)
@@ -887,6 +1027,27 @@ class ExprGen:
         self.rng = rng
         self.syms = symbols
 
+    @staticmethod
+    def _small(x) -> bool:
+        if not x.is_Number:
+            return True
+        if x.is_Rational:
+            return len(str(abs(int(x.p)))) <= 9 and len(str(int(x.q))) <= 9
+        return x.is_Float and 1e-30 < abs(float(x)) < 1e30
+
+    def pw(self, b, x):
+        """Pow with a guard against numeric blow-up (number ** number is kept small)"""
+        if b.is_Number and x.is_Number:
+            if not (self._small(b) and x.is_Rational and abs(x) <= 5 and int(x.q) <= 4 and abs(b) <= 1000):
+                b = self.rng.choice(self.syms)
+        return sympy.Pow(b, x)
+
+    def tame(self, e):
+        """replace an over-large numeric result by a small literal"""
+        if e.is_Number and not self._small(e):
+            return sympy.Integer(self.rng.choice([2, 3, 5]))
+        return e
+
     def leaf(self):
         r = self.rng.random()
         if r < 0.62:
@@ -913,7 +1074,10 @@ class ExprGen:
             return -self.rng.choice(self.syms)
         return self.expr(depth - 1)
 
-    def expr(self, depth):  # pylint: disable=too-many-return-statements,too-many-branches
+    def expr(self, depth):
+        return self.tame(self._expr(depth))
+
+    def _expr(self, depth):  # pylint: disable=too-many-return-statements,too-many-branches
         rng = self.rng
         if depth <= 0 or rng.random() < 0.12:
             return self.leaf()
@@ -930,7 +1094,7 @@ class ExprGen:
         if r < 0.55:
             return -sub()
         if r < 0.70:
-            return sympy.Pow(sub(), self.exponent(depth))
+            return self.pw(sub(), self.exponent(depth))
         if r < 0.80:
             f = rng.choice(self.FUNCS)
             a = sub()
@@ -941,6 +1105,7 @@ class ExprGen:
         """bracket-sensitive templates"""
         rng = self.rng
         a, b, c, d = (self.expr(depth - 1) for _ in range(4))
+        pw = self.pw
         n = sympy.Integer(rng.choice([2, 3, 4, 5]))
         k = rng.randrange(22)
         if k == 0:
@@ -950,19 +1115,19 @@ class ExprGen:
         if k == 2:
             return -(a + b)
         if k == 3:
-            return (a + b)**c
+            return pw(a + b, c)
         if k == 4:
-            return a**(b**c)
+            return pw(a, pw(b, c))
         if k == 5:
-            return (a**b)**c
+            return pw(pw(a, b), c)
         if k == 6:
-            return (-a)**n
+            return pw(-a, n)
         if k == 7:
             return a - (b - c)
         if k == 8:
             return 1 / (a / b)
         if k == 9:
-            return a**sympy.Rational(-1, 2)
+            return pw(a, sympy.Rational(-1, 2))
         if k == 10:
             return (a + b) / (c + d)
         if k == 11:
@@ -970,17 +1135,17 @@ class ExprGen:
         if k == 12:
             return a * (-b)
         if k == 13:
-            return (a * b)**sympy.Rational(rng.choice([-1, 1, -3, 3]), 2)
+            return pw(a * b, sympy.Rational(rng.choice([-1, 1, -3, 3]), 2))
         if k == 14:
-            return a**(-b)
+            return pw(a, -b)
         if k == 15:
             return a / (b + c) - d
         if k == 16:
-            return (a / b)**n
+            return pw(a / b, n)
         if k == 17:
             return a * (b + c) * d
         if k == 18:
-            return -(a * b)**n
+            return -pw(a * b, n)
         if k == 19:
             return a / (b / c)
         if k == 20:
